@@ -3,6 +3,7 @@ package checks
 import (
 	"encoding/json"
 	"fmt"
+	"google.golang.org/grpc/codes"
 	"math/rand"
 	"os"
 	"path/filepath"
@@ -37,6 +38,8 @@ type Up4Params struct {
 	Wide      bool   `json:"wide"`    // boundary values (C16)
 	Pfd       bool   `json:"pfd"`     // the application filters are provisioned as PFDs and half of the flows name the application (C08 on UP4)
 	Markers   int    `json:"markers"` // C14: 1 = end markers enabled and asked for, 2 = asked for but disabled in the configuration
+	Drain     int    `json:"drain"`   // C16: one scenario first establishes this many sessions that hold meter cells, until the pools are empty (tables not recorded)
+	Faults    bool   `json:"faults"`  // a quarter of the steps have one of their first writes failed by the switch (C14: no marker for a rejected update)
 }
 
 func up4Cfg(rng *rand.Rand, n4 string) agent.Cfg {
@@ -133,7 +136,36 @@ func e2eUp4Worker(args []string) error {
 		g.EndMarkers = p.Markers != 0
 		g.UsePfd = p.Pfd
 
+		if p.Drain > 0 && sc == 0 {
+			// the meter pools are drained: the last cells handed out are the ones at the edge of the arrays
+			w.LightDp = true
+			g.ForceSessQer, g.OneFlow, g.AlwaysQer = true, true, true
+			g.MaxSess = p.Drain + 10
+
+			w.Assoc("p1")
+			g.MarkAssoc("p1")
+
+			// until the switch has more than 511 sessions' worth of cells or nothing is accepted any more
+			for i, refused := 0, 0; i < 2*p.Drain && g.LiveCount() < p.Drain && refused < 12 && !w.Died; i++ {
+				g.Reseed(rng.Int63())
+
+				if g.Establish("p1") {
+					refused = 0
+				} else {
+					refused++
+				}
+			}
+
+			sum.Stats["drain_sessions"] += g.LiveCount()
+			g.ForceSessQer, g.OneFlow, g.AlwaysQer = false, false, false
+		}
+
 		for i := 0; i < p.Steps; i++ {
+			if p.Faults && rng.Intn(4) == 0 {
+				w.P4Fault = &e2e.P4FaultPlan{K: 1 + rng.Intn(4), Mode: "rpc", Code: codes.Unavailable}
+				sum.Stats["faults_armed"]++
+			}
+
 			if !g.Step() {
 				break
 			}
@@ -367,6 +399,10 @@ func e2eUp4ScopeWorker(args []string) error {
 			case "B:fwd1":
 				if sb != nil && sb.Live() {
 					g.SetDlAny(sb, "fwd", 1)
+				}
+			case "A:rmdl":
+				if sa != nil && sa.Live() {
+					g.RemoveDownlinkAny(sa)
 				}
 			case "A:rmflow":
 				if sa != nil && sa.Live() && sa.Flows() > 1 {
